@@ -438,8 +438,8 @@ impl std::ops::Neg for Quantity {
 
 impl PartialEq for Quantity {
     fn eq(&self, other: &Self) -> bool {
-        if let Ok(other_converted) = other.convert_to(self.unit()) {
-            self.value == other_converted.value
+        if let Ok((lhs, rhs)) = self.values_in_common_unit(other) {
+            lhs == rhs
         } else {
             false
         }
@@ -448,8 +448,8 @@ impl PartialEq for Quantity {
 
 impl PartialOrd for Quantity {
     fn partial_cmp(&self, other: &Self) -> Option<std::cmp::Ordering> {
-        let other_converted = other.convert_to(self.unit()).ok()?;
-        self.value.partial_cmp(&other_converted.value)
+        let (lhs, rhs) = self.values_in_common_unit(other).ok()?;
+        lhs.partial_cmp(&rhs)
     }
 }
 
@@ -470,6 +470,33 @@ pub(crate) enum QuantityOrdering {
 }
 
 impl Quantity {
+    /// The values of `self` and `other`, expressed in a common unit that does not
+    /// depend on the order of the operands, so that comparisons are symmetric
+    /// (`a == b` iff `b == a`, `a < b` iff `b > a`): units of the same size are
+    /// compared directly, otherwise both values are converted to the smaller unit.
+    fn values_in_common_unit(&self, other: &Self) -> Result<(Number, Number)> {
+        if self.unit == other.unit {
+            return Ok((self.value, other.value));
+        }
+
+        let (self_base, self_factor) = self.unit.to_base_unit_representation();
+        let (other_base, other_factor) = other.unit.to_base_unit_representation();
+
+        if self_base == other_base && self_factor.to_f64() == other_factor.to_f64() {
+            Ok((self.value, other.value))
+        } else {
+            let common_unit = if self_factor.to_f64() < other_factor.to_f64() {
+                &self.unit
+            } else {
+                &other.unit
+            };
+            Ok((
+                self.convert_to(common_unit)?.value,
+                other.convert_to(common_unit)?.value,
+            ))
+        }
+    }
+
     /// partial_cmp that encodes whether comparison fails because its arguments have
     /// incompatible units, or because one of them is NaN
     pub(crate) fn partial_cmp_preserve_nan(&self, other: &Self) -> QuantityOrdering {
@@ -477,13 +504,12 @@ impl Quantity {
             return QuantityOrdering::NanOperand;
         }
 
-        let Ok(other_converted) = other.convert_to(self.unit()) else {
+        let Ok((lhs, rhs)) = self.values_in_common_unit(other) else {
             return QuantityOrdering::IncompatibleUnits;
         };
 
-        let cmp = self
-            .value
-            .partial_cmp(&other_converted.value)
+        let cmp = lhs
+            .partial_cmp(&rhs)
             .expect("unexpectedly got a None partial_cmp from non-NaN arguments");
 
         QuantityOrdering::Ok(cmp)
